@@ -2,7 +2,7 @@
    and satisfiability examples.  Instance: contents are identified by their digest (bytes := oid,
    H := identity), [1] is the empty content, no directory listings. *)
 From Coq Require Import NArith List Bool.
-From DvcData Require Import Base.Val Model.AddSteps Proofs.AddStepsProofs Proofs.AddStepsProgs Proofs.AddStepsRecover.
+From DvcData Require Import Base.Val Model.AddSteps Proofs.AddStepsProofs Proofs.AddStepsProgs Proofs.AddStepsRecover Proofs.AddStepsVerify Proofs.AddStepsRecoverVerify Proofs.AddStepsMulti Proofs.AddStepsMultiRecover.
 Import ListNotations.
 Open Scope N_scope.
 
@@ -220,3 +220,60 @@ Example xv_rerun_result :
   enc_objs (run oid xE (xv_prog xv_crashed) xv_crashed) = enc_objs (run oid xE (xv_prog w_empty) w_empty) /\
   enc_objs (run oid xE (xv_prog xv_crashed) xv_crashed) = VL [VL [VB [2]; VB [2]; VN 1]].
 Proof. vm_compute. split; reflexivity. Qed.
+
+Definition enc_objs_N (w : world N) : list (oid * N * bool) :=
+  map (fun e => (fst e, f_bytes (snd e), f_prot (snd e))) (rev (w_objs w)).
+
+(* ---- ONE transfer over two directories sharing a file: 4.dir lists [2],[3]; 6.dir lists [3],[5].
+   All hypotheses of C15_recover_mtransfer hold at once; killed after 30 steps, re-run with the
+   directories and files iterated in the opposite order ---- *)
+Definition mK (n : N) : list oid := if N.eqb n 4 then [[2]; [3]] else if N.eqb n 6 then [[3]; [5]] else [].
+Definition m_files : list (oid * N) := [([2], 2); ([3], 3); ([5], 5)].
+Definition m_d1 : oid * N := ([4; 46; 100; 105; 114], 4).
+Definition m_d2 : oid * N := ([6; 46; 100; 105; 114], 6).
+Definition m_qs : list oid := [[3]; [4; 46; 100; 105; 114]; [2]; [6; 46; 100; 105; 114]; [5]].
+Definition m_w0 : world N := mkW [] [] [] None.
+Lemma m_inv : inv N zH mK m_w0.
+Proof.
+  repeat split; unfold prot_ok, rows_ok, closed, pend_ok, obj, row; simpl; intros; discriminate.
+Qed.
+Lemma m_files_ok l : (forall it, In it l -> In it m_files) -> files_ok N zH l.
+Proof.
+  intros Hl it Hi. apply Hl in Hi. destruct Hi as [<-|[<-|[<-|[]]]]; split; vm_compute; reflexivity.
+Qed.
+Lemma m_dir_ok l d : (forall k, In k (mK (snd d)) -> In k (map fst l)) -> d = m_d1 \/ d = m_d2 -> dir_ok N zH mK l d.
+Proof.
+  intros Hk [-> | ->]; (split; [vm_compute; reflexivity|]; split; [vm_compute; reflexivity|]; exact Hk).
+Qed.
+Lemma m_requested ds fo :
+  (forall o, In o (map fst ds) <-> o = fst m_d1 \/ o = fst m_d2) ->
+  (forall o, In o (map fst fo) <-> In o (map fst m_files)) ->
+  mrequested N fo ds m_qs.
+Proof.
+  intros Hd Hf o. rewrite Hd, Hf. unfold m_qs. simpl. split.
+  - intros [<-|[<-|[<-|[<-|[<-|[]]]]]]; auto 6.
+  - intros [[Ho|Ho]|[Ho|[Ho|[Ho|[]]]]]; subst o; simpl; auto 6.
+Qed.
+Example m_recover_instance :
+  let p0 := mtransfer_prog N zH mK 1 (fun n => n + 100) false false 0 m_qs [m_d1; m_d2] m_files m_w0 in
+  let wc := crash N (run N 1 (firstn 30 p0) m_w0) in
+  let p1 := mtransfer_prog N zH mK 1 (fun n => n + 100) false false 9 m_qs [m_d2; m_d1] (rev m_files) wc in
+  store_eq N (run N 1 p1 wc) (run N 1 p0 m_w0) /\ length p0 = 57%nat /\
+  (* the shared file [3] went up with the FIRST directory, before that directory's object (which is
+     being copied at step 30) *)
+  enc_objs_N (run N 1 (firstn 30 p0) m_w0) = [([2], 2, true); ([3], 3, true)].
+Proof.
+  intros p0 wc p1. split; [|split; vm_compute; reflexivity].
+  refine (proj1 (proj2 (proj2 (mtransfer_recover N zH mK 1 (fun n => n + 100) eq_refl z_inj
+            false 0 9 m_qs m_qs [m_d1; m_d2] [m_d2; m_d1] m_files (rev m_files) m_w0 30
+            m_inv eq_refl _ _ _ _ _ _ _ _ _)))).
+  - apply m_files_ok. auto.
+  - intros d [<-|[<-|[]]]; apply m_dir_ok; auto; vm_compute; intuition.
+  - repeat constructor; simpl; intuition discriminate.
+  - apply m_requested; [simpl; intuition | reflexivity].
+  - apply m_files_ok. intros it Hi. apply in_rev in Hi. exact Hi.
+  - intros d [<-|[<-|[]]]; apply m_dir_ok; auto; vm_compute; intuition.
+  - repeat constructor; simpl; intuition discriminate.
+  - apply m_requested; [simpl; intuition | intros o; simpl; intuition].
+  - reflexivity.
+Qed.
